@@ -57,6 +57,9 @@ EvCloseRet == IsEv("CloseRet") /\ (Ev.af => ~Ev.ok) /\ Same
 EvListenCall == IsEv("ListenCall") /\ Same
 EvListenRet == IsEv("ListenRet") /\ Same
 EvPeer == IsEv("Peer") /\ Same
+\* the open-sessions gauge after the engine has settled: what the program expects (e.g. 0 after a connectSync that timed
+\* out - "a timed-out attempt leaves no open connection behind", on either side of the loopback connection)
+EvGauge == IsEv("Gauge") /\ Ev.g = Ev.want /\ Same
 
 AllClosed == \A i \in Ids : st[i] \in {"none", "closed"}
 EvLifeCall == IsEv("LifeCall") /\ Same
@@ -71,6 +74,6 @@ EvEnd == /\ IsEv("End") /\ Ev.outcome \in {"done", "steplimit"}
          /\ Same
 
 Next == EvSyncConnCall \/ EvSyncConnRet \/ EvModeCall \/ EvModeRet \/ EvRecvCall \/ EvRecvRet \/ EvBegin \/ EvReset \/ EvAccept \/ EvConnect \/ EvData \/ EvClose \/ EvConnCall \/ EvConnRet \/ EvSendCall \/ EvSendRet
-        \/ EvCloseCall \/ EvCloseRet \/ EvListenCall \/ EvListenRet \/ EvPeer \/ EvLifeCall \/ EvLifeRet \/ EvEnd
+        \/ EvCloseCall \/ EvCloseRet \/ EvListenCall \/ EvListenRet \/ EvPeer \/ EvGauge \/ EvLifeCall \/ EvLifeRet \/ EvEnd
 Spec == Init /\ [][Next]_vars
 ===============================================================================
